@@ -218,5 +218,7 @@ def pack_standard(evs):
             pass
         elif ev == "exception":
             base["what"] = e.get("what", "")[:200]
+        elif ev == "replay":
+            base["n_diffs"] = len(e.get("diffs", []))
         out.append(base)
     return out, {"n_ids": len(ids), "n_ranks": len(rk.rank)}
